@@ -33,7 +33,14 @@ func main() {
 	w := vt.NewWriter(*out)
 	defer w.Close()
 	st := &stats{}
+	if *mode == "conc" {
+		conc(w, st)
+		*topos = ""
+	}
 	for _, name := range strings.Split(*topos, ",") {
+		if name == "" {
+			continue
+		}
 		t := topoByName(name)
 		if t == nil {
 			vt.Fatal("unknown topology %q", name)
@@ -485,3 +492,64 @@ func alert(w *vt.Writer, t *dp.Topo, st *stats) {
 }
 
 func netipAddr(s string) netip.Addr { return netip.MustParseAddr(s) }
+
+// conc: C02 binding for "any segments produced by beacon origination, propagation and
+// registration": the beacons of a wide fan-out topology are extended concurrently through the one
+// extender of each AS, as the control service's per-interface goroutines do, for several beaconing
+// intervals; every registered segment is then used in both directions, and peering combinations
+// are walked as well.
+func conc(w *vt.Writer, st *stats) {
+	fw, fp := 12, 1
+	if v := os.Getenv("DP_FAN"); v != "" {
+		fmt.Sscanf(v, "%d,%d", &fw, &fp)
+	}
+	t := dp.FanP(fw, fp)
+	rng := vt.Rand(4242)
+	c := dp.NewControl(t, rng, 2)
+	n := dp.NewNet(c, dp.NetOpts{})
+	w.Emit(map[string]any{"ev": "topo", "t": t.JSON()})
+	rounds, intervals := 1, 2
+	if vt.Thorough() {
+		rounds, intervals = 4, 4
+	}
+	if v := os.Getenv("DP_CONC"); v != "" {
+		fmt.Sscanf(v, "%d,%d", &rounds, &intervals)
+	}
+	for r := 0; r < rounds; r++ {
+		c.ResetSegs()
+		c.BeaconConcurrent(intervals)
+		for _, p := range c.Panics {
+			w.Emit(map[string]any{"ev": "panic", "where": "DefaultExtender.Extend", "what": p})
+		}
+		c.Panics = nil
+		k := 0
+		for src := range t.ASes {
+			for dst := range t.ASes {
+				if src == dst {
+					continue
+				}
+				// single-segment and peering combinations exercise every hop and peer entry
+				cs, cd := t.ASes[src].Core, t.ASes[dst].Core
+				if !cs && !cd && dst != src+1 && !(src == len(t.ASes)-1 && dst == 2) {
+					continue
+				}
+				ups, cores, downs := c.SegsFor(src, dst)
+				for _, p := range combinator.Combine(t.ASes[src].IA, t.ASes[dst].IA, ups, cores, downs, true) {
+					nseg := 0
+					peer := false
+					for _, i := range dp.Parse(mustRaw(pathRec{src, dst, p})).Dec.InfoFields {
+						nseg++
+						peer = peer || i.Peer
+					}
+					if nseg > 1 && !peer {
+						continue
+					}
+					k++
+					st.journeys++
+					n.Run(w, src, dst, p, dp.JourneyOpts{ID: st.journeys, Mode: "honest", PT: "scion",
+						L4: "udp", Rev: "none", Rng: rng})
+				}
+			}
+		}
+	}
+}
